@@ -554,6 +554,14 @@ class Machine:
         s.stats['solver_s'] += time.time() - t0
         s.stats['solver_calls'] += 1
         if r == z3.unknown:
+            # retry with fresh solvers, other seeds and a longer limit before giving up (hard nonlinear queries are erratic)
+            for attempt in (1, 2):
+                s2 = z3.Solver(); s2.set('timeout', 2 * s.opts.get('solver_timeout_ms', 60000)); s2.set('random_seed', 17 * attempt)
+                s2.add(*s.pc)
+                if extra is not None: s2.add(extra)
+                r = s2.check(); s.stats['solver_retries'] += 1
+                if r != z3.unknown: slv = s2; s.last_solver = s2; break
+        if r == z3.unknown:
             dd = os.environ.get('IRSYM_DUMP_UNKNOWN')
             if dd:
                 with open(os.path.join(dd, 'unk_%d_%d.smt2' % (os.getpid(), s.checks)), 'w') as f_:
@@ -2060,7 +2068,10 @@ def _explore_chunk(args):
                 v = 'skipped:' + str(e)
             if v == 'ok': R['validated'] += 1
             elif v.startswith('skipped'): R['val_skipped'][v] += 1
-            else: R['mismatches'].append((v, list(M.decisions)))
+            else:
+                try: iv = [str(fr) for (n_, k_, fr) in (M.int_model() or [])]
+                except Exception: iv = []
+                R['mismatches'].append((v + ' [inputs: %s]' % ' '.join(iv), list(M.decisions)))
         if res == 'ok' and len(R['samples']) < 2:
             try:
                 vals = M.int_model()
